@@ -162,7 +162,15 @@ func (g *guarded) place(b []byte) []byte {
 
 // ---------------------------------------------------------------- output arenas with canaries
 
-const canary = 0xA5
+// canaryAt is what the byte at arena offset i holds before the call: a position-dependent pattern without short
+// periods, so that not only stores of new data but also permutations and read-modify-writes of what the buffer
+// already held (a byte-swap of a few words past the message, say) show - a uniform fill is blind to those.
+func canaryAt(i int) byte {
+	x := uint32(i+1) * 2654435761
+	x ^= x >> 15
+	x *= 2246822519
+	return byte(x >> 24)
+}
 
 type outArena struct {
 	mem           []byte
@@ -176,7 +184,7 @@ func newArena(ln, capa int) *outArena {
 	a := &outArena{pre: 32, ln: ln, capa: capa}
 	a.mem = make([]byte, a.pre+capa+32)
 	for i := range a.mem {
-		a.mem[i] = canary
+		a.mem[i] = canaryAt(i)
 	}
 	return a
 }
@@ -186,7 +194,7 @@ func (a *outArena) buf() []byte { return a.mem[a.pre : a.pre+a.ln : a.pre+a.capa
 // intact reports the first broken canary outside buf[:keep] ("" if none).
 func (a *outArena) intact(keep int) string {
 	for i, c := range a.mem {
-		if c != canary && (i < a.pre || i >= a.pre+keep) {
+		if c != canaryAt(i) && (i < a.pre || i >= a.pre+keep) {
 			where := "before the buffer"
 			switch {
 			case i >= a.pre+a.capa:
@@ -329,6 +337,23 @@ func (r *Runner) op(id uint64) *OpSpec {
 	return &o
 }
 
+// frugalStacks keeps the goroutines of a stack dump that are inside the code under test.
+func frugalStacks(all string) string {
+	var out []string
+	for _, g := range strings.Split(all, "\n\n") {
+		if strings.Contains(g, "cloudwego/frugal/internal/") || strings.Contains(g, "cloudwego/frugal.") {
+			if len(g) > 1500 {
+				g = g[:1500] + " ..."
+			}
+			out = append(out, g)
+		}
+		if len(out) >= 4 {
+			break
+		}
+	}
+	return strings.Join(out, "\n\n")
+}
+
 func (r *Runner) violation(prop, sig, msg string, st *Step) {
 	r.st(st).viol++
 	r.J.put(&Rec{K: "V", Prop: prop, Sig: sig, Msg: msg, Slot: st.Slot, Task: st.Task, Op: st.Op})
@@ -349,6 +374,12 @@ func (r *Runner) Run() {
 	}
 	debug.SetMaxStack(64 << 20)
 	verifsim.SetPool(spec.Pool, model.Mix(spec.Seed, 0x9001))
+	verifsim.OnStall = func(stacks string) {
+		r.J.put(&Rec{K: "V", Prop: "C08", Sig: "C08/deadlock/blocked-outside-scheduler", Msg: "no task has passed a yield point for " + strconv.Itoa(verifsim.StallSeconds) +
+			" s of wall time: the task that holds the run token is blocked in an operation the simulator does not schedule (channel operation, real lock, system call) while every other task is parked\n" + frugalStacks(stacks)})
+		r.J.put(&Rec{K: "end", End: map[string]interface{}{"stalled": true, "viol": 1, "evals": 1, "rounds": 1, "steps": 0, "switches": 0}})
+		os.Exit(0)
+	}
 	if spec.Prof == "C16" {
 		r.prepareShared()
 	}
@@ -596,6 +627,8 @@ func (r *Runner) exec(op *OpSpec, st *Step) (res *Rec) {
 		return r.execDecEnum(op, st)
 	case "decseq":
 		return r.execDecSeq(op, st)
+	case "wrap":
+		return r.execWrap(op, st)
 	case "reenc":
 		return r.execReenc(op, st)
 	case "legacy":
